@@ -48,6 +48,7 @@ func TestRace(t *testing.T) {
 			}
 			store.Clients[id] = c
 		}
+		store.Users[Subject] = storage.MemoryUserRelation{Username: Subject, Password: Password}
 		var cfg *fosite.Config
 		if mode == "default" {
 			cfg = &fosite.Config{GlobalSecret: []byte("global-secret-0123456789-0123456789-0123456789")}
@@ -94,7 +95,7 @@ func TestRace(t *testing.T) {
 				var own []string
 				for i := 0; i < iters; i++ {
 					atomic.AddInt64(&ops, 1)
-					switch r.Intn(6) {
+					switch r.Intn(7) {
 					case 0: // authorize (code or hybrid)
 						q := url.Values{"client_id": {"A"}, "response_type": {[]string{"code", "code token"}[r.Intn(2)]}, "scope": {"openid offline a"},
 							"state": {GoodState}, "nonce": {GoodNonce}, "redirect_uri": {RedirectOf["A"]}}
@@ -169,6 +170,25 @@ func TestRace(t *testing.T) {
 							req.SetBasicAuth("A", ClientSecrets["A"])
 							finishPost(req, url.Values{"token": {tok}})
 							_ = prov.NewRevocationRequest(ctx, req)
+						}
+					case 6: // password grant with the library's plain DefaultSession carrying extra claims: its tokens join the shared pools
+						req := postReq("/token")
+						req.SetBasicAuth("A", ClientSecrets["A"])
+						finishPost(req, url.Values{"grant_type": {"password"}, "scope": {"offline a"}, "username": {Subject}, "password": {Password}})
+						sess := &fosite.DefaultSession{Subject: Subject, Username: Subject, Extra: map[string]interface{}{"tenant": "t1"}}
+						ar, err := prov.NewAccessRequest(ctx, req, sess)
+						if err != nil {
+							continue
+						}
+						ar.GrantScope("offline")
+						ar.GrantScope("a")
+						resp, err := prov.NewAccessResponse(ctx, ar)
+						if err != nil {
+							continue
+						}
+						put("at", resp.GetAccessToken())
+						if rt, _ := resp.GetExtra("refresh_token").(string); rt != "" {
+							put("rt", rt)
 						}
 					case 5: // client credentials with scope + audience checks (lazy strategy defaults)
 						req := postReq("/token")
